@@ -103,7 +103,7 @@ func checkSDTVal(c *Ctx, p *Prog, rule string) {
 	}}
 	out := InterpretSafe(reg, &MapWorld{})
 	want := "TrimSpace(REPLACED(string(T.Lit))[2:len(REPLACED(string(T.Lit)))-2])"
-	got := strings.Join(out.Results, ",")
+	got := strings.ReplaceAll(strings.Join(out.Results, ","), "("+outer.Params[0].Name()+".Lit)", "(T.Lit)")
 	c.Ob(rule, "SDTVal: brackets stripped", out.Term == "return" && got == want, fmt.Sprintf("result %s %s; required %s", got, out.Undecided, want), p.FnPos(outer))
 	// the pattern's language on probes (semantic, not textual)
 	pat, ok := sdtPattern(p)
